@@ -54,7 +54,8 @@ CONC_TB = ["sequentially consistent interleaving of the atomic / lock operations
 PROPS = {
     "C19": dict(
         module="Prom.Props.C19",
-        areas=[dict(area="sm", quick=12, thorough=120)],
+        areas=[dict(area="sm", quick=12, thorough=120),
+               dict(area="cvec", quick=500, thorough=20000, classes=["update-lost", "not-linearizable", "stuck", "harness-panic"])],
         rule="a generated Rust program of N macro declarations (make_static_metric! / make_auto_flush_static_metric!; 1-4 labels x 1-4 values; inline lists, label_enum references, renamed values; "
              "Counter / IntCounter / Gauge / IntGauge / Histogram and Local* / auto-flush forms; permuted backing label order) is compiled with the REAL proc-macro and run: every field path, every get(enum) chain and every try_get(str) chain "
              "(declared and undeclared values) updates the addressed metric (+ flush) and reports which child of the backing vector changed; case = one accessor query; non-trivial = a declaration with at least two labels; distinct by query text",
@@ -112,7 +113,8 @@ PROPS = {
     ),
     "C11": dict(
         module="Prom.Props.C11",
-        areas=[dict(area="catomg", quick=1500, thorough=80000, classes=["not-linearizable", "stuck", "harness-panic"])],
+        areas=[dict(area="catomg", quick=1500, thorough=80000, classes=["not-linearizable", "stuck", "harness-panic"]),
+               dict(area="cvec", quick=500, thorough=20000, classes=["update-lost", "not-linearizable", "stuck", "harness-panic"])],
         rule="case = 2-3 real threads x 1-3 calls (set, inc, dec, add, sub, get; integer gauges also near i64::MAX/MIN) on one shared Gauge / IntGauge under the deterministic scheduler; trace replayed by the Lean machine; "
              "non-trivial = two calls of different threads overlap; distinct by (program, schedule seed)",
         trusted=CONC_TB + ["float amounts are small integers (exact sums); sub(x) undoes add(x) for f64 only up to rounding in general"],
@@ -128,7 +130,8 @@ PROPS = {
     "C02": dict(
         module="Prom.Props.C02",
         areas=[dict(area="chist", quick=1500, thorough=80000, classes=["snapshot-not-a-cut", "collect-stuck", "harness-panic"]),
-               dict(area="hist", quick=500, thorough=20000)],
+               dict(area="hist", quick=500, thorough=20000),
+               dict(area="cvec", quick=500, thorough=20000, classes=["update-lost", "not-linearizable", "stuck", "harness-panic"])],
         rule="case = 2-4 real threads (observers, local-histogram batch flushers, 1-3 collectors incl. get_sample_count / get_sample_sum) x 1-3 calls on one Histogram with 1-3 buckets under the deterministic scheduler "
              "(up to 1 spurious compare-exchange failure; values incl. negative ones); the trace of every atomic / lock operation is replayed by the Lean machine; oracle: each returned snapshot = stats of the observations whose claim precedes that collector's flip in the trace; "
              "non-trivial = at least one collect and one observation/flush in the program; distinct by (program, schedule seed)",
@@ -139,7 +142,8 @@ PROPS = {
         module="Prom.Props.C03",
         areas=[dict(area="chist", quick=1500, thorough=80000, classes=["observations-not-conserved", "snapshot-not-a-cut", "collect-stuck", "harness-panic"]),
                dict(area="hist", quick=500, thorough=20000),
-               dict(area="local", quick=600, thorough=20000, classes=["histogram-handover", "histogram-pending", "harness-panic"], mask=[(only_prefix("count="), None)])],
+               dict(area="local", quick=600, thorough=20000, classes=["histogram-handover", "histogram-pending", "harness-panic"], mask=[(only_prefix("count="), None)]),
+               dict(area="cvec", quick=500, thorough=20000, classes=["update-lost", "not-linearizable", "stuck", "harness-panic"])],
         rule="as C02, with histories of up to 3 collections per collector thread and several collector threads; after all threads finished a further collect must return exactly all observations and get_sample_count / get_sample_sum must agree; "
              "a run that does not finish (a collect waiting forever) is a failure; plus sequential observe/flush/collect histories of the `hist` area",
         trusted=CONC_TB + ["as C02"],
@@ -149,7 +153,8 @@ PROPS = {
         areas=[dict(area="fall", quick=4000, thorough=150000),
                dict(area="reg", quick=600, thorough=20000, classes=["admission-wrong", "unregister-wrong", "harness-panic"],
                     mask=[(lambda x: "ok" if x == "ok" else ("err" if x.startswith("err:") else "-"), None)]),
-               dict(area="cvec", quick=500, thorough=20000, classes=["not-linearizable", "stuck", "harness-panic"])],
+               dict(area="cvec", quick=500, thorough=20000, classes=["not-linearizable", "stuck", "harness-panic"]),
+               dict(area="creg", quick=500, thorough=20000, classes=["registry-not-linearizable", "admission-wrong", "stuck", "harness-panic"])],
         rule="case = one call of a Result-returning API under catch_unwind: histogram constructors over adversarial bucket lists, linear/exponential_buckets over every f64 class and counts 0-6, "
              "all 11 constructors over adversarial names, get_metric_with_label_values / get_metric_with / remove_label_values / remove with cardinalities 0-5 and wrong names, Registry::new_custom, "
              "TextEncoder on strings with multi-byte characters next to escaped ones, both encoders on hand-built families of every MetricType (empty name, no samples, mismatching value slots, failing writer); "
@@ -168,7 +173,8 @@ PROPS = {
     "C12": dict(
         module="Prom.Props.C12",
         areas=[dict(area="local", quick=1500, thorough=60000),
-               dict(area="chist", quick=600, thorough=30000, classes=["observations-not-conserved", "snapshot-not-a-cut", "collect-stuck", "harness-panic"])],
+               dict(area="chist", quick=600, thorough=30000, classes=["observations-not-conserved", "snapshot-not-a-cut", "collect-stuck", "harness-panic"]),
+               dict(area="cvec", quick=500, thorough=20000, classes=["update-lost", "not-linearizable", "stuck", "harness-panic"])],
         rule="case = one world (shared counter / int counter with local handles; shared histogram with local histograms; counter / int counter / histogram vector with local vectors) "
              "+ 6-28 operations (local update, flush, reset/clear, clone, drop, remove_label_values with pending data, direct update, shared reset, read-back); "
              "non-trivial = at least two flushes/drops in the history; distinct by request text",
